@@ -3,6 +3,7 @@ import hashlib
 import json
 
 import gen
+import chainhist
 import vlib
 from vlib import Recorder, Report, b2l, call, exc_info, text
 
@@ -128,6 +129,7 @@ def run(tier):
     rep = Report("C13", tier)
     rep.add_mc("MC_Curve", vlib.run_mc("MC_Curve"))
     recs = drive(tier)
+    chainhist.run_for(rep, "C13", tier)
     return finish(rep, recs,
                   "secrets {1,2,3,n-1,n-2, values with 1..31 leading zero bytes, seeded} x both compression settings: public key, WIF text and "
                   "re-parse under the chains' prefixes; signatures over digests {0..0, f..f, n, n+1, n-1, 1, seeded}; verification matrix with "
